@@ -514,3 +514,19 @@ mod tests {
         fast_pairing(&g1, &g2);
     }
 }
+
+/// Verification hooks (see `verif_hooks.rs`): a child module may call this module's private items.
+#[cfg(john_yu_sm9_core_verif)]
+pub(crate) mod verif {
+    use super::*;
+
+    pub fn pow_u128(x: &Fq12, exp: u128) -> Fq12 {
+        x.pow(exp)
+    }
+    pub fn first_chunk(x: &Fq12) -> Option<Fq12> {
+        x.final_exponentiation_first_chunk()
+    }
+    pub fn prepared_len(p: &G2Prepared) -> usize {
+        p.coeffs.len()
+    }
+}
